@@ -120,6 +120,15 @@ def _rooted_on_every_path(ctx, f, b, t, l, opname):
                     return
                 included.append(v)
             collect(c[2][1])
+            if isinstance(val, tuple) and val and val[0] == 'agg' and str(val[1]).startswith('Array'):
+                # a local array of values: each element is an immediate or is among the roots
+                for x in val[3]:
+                    xv = res(x)
+                    if isinstance(xv, tuple) and xv and xv[0] == 'call' and xv[1] in IMMEDIATE_CTORS:
+                        continue
+                    if xv not in included:
+                        return False
+                continue
             if val not in included:
                 return False
     return seen > 0
